@@ -77,6 +77,20 @@ class PropertyViolation(Exception):
         self.violation = violation
 
 
+FOCUS = None          # the property the running check decides (set by ./check)
+SIDE = []             # predicates of OTHER properties seen failing while scenarios were being set up
+
+
+def side_or_raise(props, violation):
+    """a shared builder saw the implementation violate a property: abort with it when it is the property being
+    decided; otherwise note it (the check reports a broken obligation unless its own monitors find a failing input)
+    and let the scenario continue, so that the monitors of the property being decided still get to see the state"""
+    if FOCUS is None or FOCUS in props:
+        raise PropertyViolation(props, violation)
+    if len(SIDE) < 20:
+        SIDE.append((props, violation))
+
+
 class Driver:
     """the Lean model behind its line protocol; batch mode: all lines in, all lines out"""
 
